@@ -124,6 +124,16 @@ register("C08",
          "Trusted: Coq kernel; gen_derivable / gen_grancompat translators (fail-closed, validated each run); Model/Preagg.v hand-written (one coded dimension and non-NULL integer values stand for the dimension tuple / measure values), tied by differential testing; DuckDB as oracle. No axioms.",
          "Coq proof (regrouping of decomposable aggregates over a partition, semilattice fold for min/max, calendar nesting) over a hand-written rollup model + translator-regenerated derivability; routed-vs-unrouted execution and decision audit", "DESIGN.md section 6/C08")
 
+register("C06",
+         "Machine-checked Coq theorems for formulas of ANY nesting depth and any component names: the value of a formula whose references were replaced by the components' formulas is the formula applied to the components' values (C06_compositional, SQL NULL semantics); "
+         "the code's expansion -- one dependency after the other, whole-word replacement by a parenthesised component text -- equals the simultaneous substitution when no replacement mentions a later name (C06_subst), and on a rendered formula it yields exactly "
+         "the rendering of the substituted tree (C06_text_expansion); names that are substrings of one another never interfere (C06_names); ratio = n / NULLIF(d, 0) is NULL on a zero / NULL denominator, fill_nulls_with replaces a NULL result; tokenisation is lossless. "
+         "Model/Formula.v is hand-written and tied to the code at TEXT level: `build`, evaluated in Coq on the real leaf SQL and the real dependency sets, must equal the string SQLGenerator._build_metric_sql returns for every generated composite; "
+         "the property oracle evaluates each composite's formula (recursively, in Coq) over the implementation's own component columns of the same rows; unrelated models/metrics are added and must change nothing; twin composites of two models are selected together. "
+         "Known-finding classes K1 (graph-level metric spelled like a measure), K2 (same measure name on two models in one formula), K3 (inline-aggregate metric mentioning a column that is also a metric name).",
+         "Trusted: Coq kernel; Model/Formula.v hand-written (tied by the text comparison and the value oracle); sqlglot's column extraction gives the dependency set, DuckDB parses/evaluates the expanded text; rows whose reference value involves x/0 (IEEE inf/nan in DuckDB) are outside the fragment. No axioms.",
+         "Coq proof (token-level substitution lemma, tree induction) + text-level model/implementation correspondence; formula-over-own-components oracle and metamorphic runs", "DESIGN.md section 6/C06")
+
 PENDING = "check not built yet in this revision (see DESIGN.md section 10 build order)"
 
 
